@@ -158,6 +158,17 @@ def cells(tier):
                    ('roStorySend', {}), ('EAStorySwap', {'k': 2}), ('roStoryInsert', {}), ('roStoryAppend', {}),
                    ('EAStoryInsert', {'tk': 'blank'}), ('EAStoryDelete', {'k': 2}), ('EAStoryReplace', {})):
         out.append(mk(op, 3, gap=None, rname='any', timeout=T, extra={'prehist': True}, **kw))
+    # the smallest shapes: a single story; every story of the running order named as a source
+    for op, kw in (('roStoryMove', {'tk': 'blank'}), ('roStoryMove', {'tk': 'absent'}), ('EAStoryMove', {'tk': 'blank'}),
+                   ('EAStoryMove', {'tk': 'absent'}), ('roStoryDelete', {}), ('EAStoryDelete', {}), ('roStoryReplace', {}),
+                   ('EAStoryReplace', {'k': 2}), ('roStorySend', {}), ('roStoryInsert', {}), ('EAStoryInsert', {'tk': 'blank'}),
+                   ('roStoryAppend', {})):
+        out.append(mk(op, 1, gap=None, rname='single-story', timeout=T, **kw))
+        out.append(mk(op, 1, gap=None, lead=0, trail=1, rname='single-story', timeout=T, **kw))
+    for op, kw in (('EAStoryMove', {'k': 2, 'tk': 'blank'}), ('EAStoryMove', {'k': 2, 'tk': 'absent'}), ('EAStoryDelete', {'k': 2}),
+                   ('roStoryDelete', {'k': 2}), ('EAStorySwap', {'k': 2})):
+        out.append(mk(op, 2, gap=None, rname='all-stories-named', timeout=T, **kw))
+        out.append(mk(op, 2, gap=None, trail=1, lead=4, rname='all-stories-named', timeout=T, **kw))
     # one larger shape per order-sensitive type (no gap child: keeps the path tree small)
     big = 4 if tier == 'quick' else 5
     if tier == 'quick':
